@@ -257,6 +257,7 @@ func (x *ctx) rejected(stderr string) {
 		if err1 != nil || err2 != nil {
 			continue
 		}
+		x.r.Programs += 2
 		x.r.Oblige(1)
 		if cs.Mod != nil && cg.Mod == nil {
 			found = true
